@@ -5,7 +5,7 @@ of rows."""
 import json
 
 from common import enc_str
-from flowutil import json_sexp, ostr
+from flowutil import json_sexp, ostr, canon_action
 import sheetgen
 
 WILD = 9999999
@@ -73,6 +73,8 @@ def dec0(random=False, operand="", wait="(0)", result=None, cases=(), cats=(), d
 def row_sexp(row):
     t = row["type"]
     act = expected_action(row)
+    if act is not None:
+        act = canon_action(act)   # same normal form as the implementation side (falsy optional fields dropped)
     acts = "(" + (json_sexp(act) if act is not None else "") + ")"
     if t in sheetgen.ACTION_TYPES:
         ty = "(0 %d %s ())" % (CLS["action"], acts)
